@@ -1275,7 +1275,7 @@ def run_phasor_stream(ctx, n):
             arg, tie.rlit(Fraction(z.real)), tol, arg, tie.rlit(Fraction(z.imag)), tol, len(goals)))
         meta.append((float(ph), z))
         ctx.count(("phasor", str(ph)), nontrivial=True)
-    path = os.path.join(core.CASES, "%s_phasor.v" % ctx.pid)
+    path = os.path.join(core.CASES, "%s_p%d_phasor.v" % (ctx.pid, os.getpid()))
     with open(path, "w") as f:
         f.write(PHEADER + "\n".join(goals) + "\n")
     res = core.coqc_many([path])
